@@ -140,7 +140,7 @@ structure OSt where
   fb : List String := []
   over : List String := []      -- resources one of whose rules has seen more distinct values than its capacity
   stale : List String := []     -- resources that had live entries when the rules were (re)loaded: no claim
-  bad : Bool := false
+  peak : Nat := 1               -- most goroutines ever inside `api.Entry` at once (parked ones + the one entering)
 
 /-- the ledger: live entries on the rule's resource whose selected value is `v` -/
 def liveCount (s : OSt) (r : Rule) (v : Val) : Nat :=
@@ -172,6 +172,13 @@ def judgeRules (s : OSt) (res : String) (as : List Val) (ats : List (String × V
       let r := judgeRules s res as ats os (stopped || (viol && !fresh))
       (viol || r.1, (!viol || fresh) && r.2.1, o' :: r.2.2.1, overflow || r.2.2.2)
 
+/-- `capped_sched`: with at most `peak` goroutines inside `api.Entry` at once, admitting this request must leave
+    every selected value within `threshold + peak - 1` -/
+def withinBound (s : OSt) (res : String) (as : List Val) (ats : List (String × Val)) : Bool :=
+  s.rules.all fun o =>
+    let v := o.rule.sel res as ats
+    v == Val.nil || decide ((liveCount s o.rule v : Int) + 1 ≤ o.rule.thrOf v + s.peak - 1)
+
 /-- after the ledger changed: refresh what the parked entries have seen -/
 def refreshPend (s : OSt) (committedOn : Option String) : OSt :=
   { s with pend := s.pend.map fun p =>
@@ -202,6 +209,7 @@ def stepOracle (s : OSt) (ts : List String) (line : String) : OSt × Option Stri
   | "entry" :: id :: res :: rest => match parseEntryArgs? rest, res? with
     | some (as, ats), some got =>
       if used id then (s, some "bad-op") else
+      let s := { s with peak := max s.peak (s.pend.length + 1) }
       let fin (s : OSt) : OSt := if got == "pass" then addLive s id res as ats else s
       if s.fb.contains res then
         (fin s, some (if got == "block flow" then "ok" else "bad expected block flow"))
@@ -219,6 +227,7 @@ def stepOracle (s : OSt) (ts : List String) (line : String) : OSt × Option Stri
   | "pentry" :: id :: res :: rest => match parseEntryArgs? rest with
     | some (as, ats) =>
       if used id then (s, some "bad-op") else
+      let s := { s with peak := max s.peak (s.pend.length + 1) }
       let p0 : OPend := { id := id, res := res, args := as, atts := ats, fbAtCheck := false,
                           noClaim := s.stale.contains res, overAtCheck := false, claimBlock := false, ftAll := true,
                           seenBlock := false, raced := false }
@@ -244,7 +253,9 @@ def stepOracle (s : OSt) (ts : List String) (line : String) : OSt × Option Stri
           if !violNow then (s1, some "ok")
           else if over then (s1, some "known:cell-evicted")
           else if p.claimBlock && p.ftAll then (s1, some "known:first-touch-unchecked")
-          else if p.raced && !p.claimBlock then (s1, some "known:check-then-act-overshoot")
+          else if p.raced && !p.claimBlock then
+            if withinBound s0 p.res p.args p.atts then (s1, some "known:check-then-act-overshoot")
+            else (s1, some "bad overshoot beyond threshold + P - 1")
           else (s1, some "bad claimed block hot")
         else
           if p.seenBlock then (s1, some "ok")
